@@ -72,6 +72,35 @@ inline std::string observe(dj::database& db, bool v2)
         }
         o += "  by-id: " + guarded([&] { return std::string(db.track_by_id(t.id()) ? "found" : "missing"); }) + "\n";
     }
+    // ids that tracks() does not list but track_by_id() resolves (e.g. the placeholder row some 1.x schemas keep after the
+    // newest track was removed): the handle comes from the public API, so observing through it is legitimate
+    {
+        int64_t mx = 0;
+        std::set<int64_t> listed;
+        for (auto& t : tracks)
+        {
+            mx = std::max(mx, t.id());
+            listed.insert(t.id());
+        }
+        for (int64_t id = 1; id <= mx + 3; ++id)
+        {
+            if (listed.count(id))
+                continue;
+            std::optional<dj::track> h;
+            try
+            {
+                h = db.track_by_id(id);
+            }
+            catch (const std::exception&)
+            {
+            }
+            if (!h)
+                continue;
+            o += "unlisted track " + std::to_string(id) + " valid=" + guarded([&] { return std::to_string(h->is_valid()); }) + "\n";
+            o += "  getters:  " + guarded([&] { return render(fields_via_getters(*h)); }) + "\n";
+            o += "  snapshot: " + guarded([&] { return render(fields_of(h->snapshot())); }) + "\n";
+        }
+    }
     for (auto& p : paths)
         o += "tracks_by_relative_path(" + hexs(p) + ")=" + guarded([&] { return ids_sorted_str(ids_of(db.tracks_by_relative_path(p))); }) + "\n";
     auto crates = db.crates();
